@@ -148,6 +148,40 @@ def explore(ctx, scale=1.0):
                     ctx.case(("nested", t, k), True); ctx.count("nested-context")
                     if r is not None:
                         ctx.violation(f"nested:{t}/{k}/{r[0]}", f"{sh[1].upper()} inside {t.upper()} under `{k}`: {r[0]} — {r[1]}", {"parent": t, "key": k, "text": text})
+    # ---------------- every cell as first (thorough: also last) keyword of its block INSIDE every parent context ----------------
+    # (at the root the opener can only be a block; inside a parent `TYPE keyword …` may also be read as a keyword of the parent
+    #  followed by a new block, so the first keyword of a nested block is where the keyword tables matter)
+    contexts = {}
+    for pt in gen.object_types():
+        for pk, pp in gen.raw(pt)["properties"].items():
+            for sh in gen.shapes(pp, pk):
+                if sh[0] in ("objlist", "object") and sh[1] and (pt, pk) not in (("class", "symbol"), ("style", "symbol")):
+                    contexts.setdefault(sh[1], []).append((pt, pk, sh[0] == "objlist"))
+    for t, k, shs in gen.cells():
+        for sh in shs:
+            if sh[0] in ("objlist", "object"):
+                continue
+            for pt, pk, is_list in contexts.get(t, []):
+                for pos in (("first", "last") if ctx.thorough else ("first",)):
+                    last = None
+                    for attempt in range(3):
+                        b = build(rng, t, k, sh, pos)
+                        if b is None:
+                            break
+                        parent = gen.Block(pt)
+                        parent.items.append(("block", pk, b, is_list))
+                        text = gen.render(parent)
+                        last = (steps(text, gen.expected(parent), None, k, P, V), text)
+                        if last[0] is None:
+                            break
+                    if last is None:
+                        continue
+                    ctx.case(("nested-cell", pt, t, k, sh[0], pos), True); ctx.count(f"nested-cell:{pos}")
+                    if last[0] is not None:
+                        step, detail = last[0]
+                        ctx.violation(f"nested-{pos}:{pt}/{t}/{k}" if step == "parse" else f"nested-cell:{pt}/{t}/{k}/{step}",
+                                      f"{t.upper()} {k.upper()} ({sh[0]}) as {pos} keyword of a {t.upper()} inside {pt.upper()}: {step} — {detail}",
+                                      {"parent": pt, "type": t, "keyword": k, "shape": sh[0], "position": pos, "text": last[1]})
     # the inline SYMBOL of a STYLE / CLASS: stored under `symbols`, which the parent schema does not know
     for parent in ("style", "class"):
         text = f'{parent.upper()}\n  SYMBOL\n    TYPE ELLIPSE\n    NAME "x"\n  END\nEND'
